@@ -49,6 +49,8 @@ type Model struct {
 	Plain func(cc *CallCtx) Value
 	// Takeover models manage control flow themselves (push frames etc.); they return whether c continues.
 	Takeover func(cc *CallCtx) bool
+	// TakeoverEnabled: enabling condition when a Takeover model rests as a visible op (default: true)
+	TakeoverEnabled func(cc *CallCtx, phase int) *Term
 }
 
 var models = map[string]*Model{}
@@ -87,6 +89,9 @@ var allowedExternal = map[string]bool{
 func (e *Engine) isInterpretable(fn *ssa.Function) bool {
 	if fn.Blocks == nil {
 		return false
+	}
+	if strings.HasPrefix(fn.Synthetic, "bound method wrapper") || strings.HasPrefix(fn.Synthetic, "wrapper for") || strings.HasPrefix(fn.Synthetic, "thunk for") {
+		return true
 	}
 	if allowedExternal[fn.String()] {
 		return true
@@ -422,11 +427,11 @@ func (e *Engine) describeOp(c *Config, f *Frame) func(ph int) *Term {
 			return func(int) *Term { return TS.True }
 		}
 		m := e.modelForMethod(iv.T, cm.Method.Name())
-		if m == nil || !m.Visible {
+		if m == nil {
 			return nil
 		}
 		cc.args = append([]Value{iv.V}, site.Args...)
-		return func(ph int) *Term { return m.Enabled(cc, ph) }
+		return modelEnabledFn(m, cc)
 	}
 	switch v := cm.Value.(type) {
 	case *ssa.Builtin:
@@ -436,6 +441,11 @@ func (e *Engine) describeOp(c *Config, f *Frame) func(ph int) *Term {
 		return nil
 	case *ssa.Function:
 		if v.Blocks == nil && strings.HasPrefix(v.Name(), "verif") {
+			if v.Name() == "verifAwaitAfterFunc" {
+				id := site.Args[0].(*Term)
+				reg := e.afters[id.val]
+				return func(int) *Term { e.foot.read(reg.Obj, c.g); return Eq(termOf(reg.State), BV(1, 8)) }
+			}
 			return func(int) *Term { return TS.True }
 		}
 		m := models[v.String()]
@@ -444,10 +454,10 @@ func (e *Engine) describeOp(c *Config, f *Frame) func(ph int) *Term {
 				m = models[o.String()]
 			}
 		}
-		if m == nil || !m.Visible {
+		if m == nil {
 			return nil
 		}
-		return func(ph int) *Term { return m.Enabled(cc, ph) }
+		return modelEnabledFn(m, cc)
 	}
 	var fvV Value
 	if f.pending != nil {
@@ -461,16 +471,29 @@ func (e *Engine) describeOp(c *Config, f *Frame) func(ph int) *Term {
 		return nil
 	}
 	m := models[fv.Model]
-	if m == nil || !m.Visible {
+	if m == nil {
 		return nil
 	}
 	cc.args = append(append([]Value{}, fv.Data...), site.Args...)
-	return func(ph int) *Term { return m.Enabled(cc, ph) }
+	return modelEnabledFn(m, cc)
+}
+
+func modelEnabledFn(m *Model, cc *CallCtx) func(ph int) *Term {
+	if m.Visible {
+		return func(ph int) *Term { return m.Enabled(cc, ph) }
+	}
+	if m.Takeover != nil {
+		if m.TakeoverEnabled != nil {
+			return func(ph int) *Term { return m.TakeoverEnabled(cc, ph) }
+		}
+		return func(int) *Term { return TS.True }
+	}
+	return nil
 }
 
 // ---------------- go statements ----------------
 
-func (e *Engine) execGo(c *Config, f *Frame, x *ssa.Go) {
+func (e *Engine) execGo(c *Config, f *Frame, x *ssa.Go) bool {
 	cm := x.Common()
 	var fn *ssa.Function
 	var args, bindings []Value
@@ -486,13 +509,14 @@ func (e *Engine) execGo(c *Config, f *Frame, x *ssa.Go) {
 	case *ssa.Builtin:
 		inconclusive("go builtin unsupported")
 	default:
-		r := pruneRefUnder(e.get(f, cm.Value).(*RefV), c.g)
-		if len(r.Alts) != 1 {
-			inconclusive("go with non-unique function value")
+		r, single := e.concretizeReg(c, f, cm.Value)
+		if !single {
+			return false
 		}
 		fv, ok := r.Alts[0].R.(*FuncVal)
 		if !ok {
-			inconclusive("go with nil function value")
+			e.raise(c, TS.True, "go of nil func value")
+			return false
 		}
 		if fv.Model != "" {
 			if len(args) != 0 {
@@ -503,11 +527,12 @@ func (e *Engine) execGo(c *Config, f *Frame, x *ssa.Go) {
 				inconclusive("harness support function verifCall0 missing")
 			}
 			e.spawn(c, helper, []Value{r}, nil)
-			return
+			return true
 		}
 		fn, bindings = fv.Fn, fv.Bindings
 	}
 	e.spawn(c, fn, args, bindings)
+	return true
 }
 
 func (e *Engine) spawn(c *Config, fn *ssa.Function, args, bindings []Value) *Gor {
